@@ -75,7 +75,7 @@ Theorem css_relex_idempotent : forall d toks ty b, css_lex d = LexDone toks -> I
 Proof. exact css_relex_proof. Qed.
 Print Assumptions css_relex_idempotent.
 
-(* C07 (partial): a sequence of tokens, each written according to the railroad diagram of its class
+(* C07: a sequence of tokens, each written according to the railroad diagram of its class
    (tok_spec, Css/Classes.v) and followed by texts that do not merge with it (the follower condition carried by
    tok_spec: the CSS Syntax separation rules), lexes to exactly that sequence of token types and texts.
    Every token type has its constructors, each proved by a maximal-munch lemma: whitespace; colon, semicolon,
@@ -92,11 +92,13 @@ Print Assumptions css_relex_idempotent.
    not part of an escape; unicode-range (1..6 hex digits and "?", or two hex runs of 1..6 around "-");
    every delimiter byte with exactly the followers that leave it a delimiter ("#", "@", "+", "-", ".", "/", "<",
    the match characters, "|", backslash before a line break or the end, NUL inside the input, the rest).
-   MISSING (no constructor in tok_spec, so such texts cannot occur in the hypothesis): a backslash followed by a
-   UTF-8 lead byte whose continuation bytes are cut by the end of the input; the identifier "u"/"U" directly
-   followed by "+" and a malformed range (more than six digits/"?", or "-" without 1..6 hex digits after it).
+   The two corner texts are covered as well: a backslash followed by a UTF-8 lead byte whose continuation bytes are
+   cut by the end of the input is an escape that must be followed by nothing (Esc_rune_cut, follower at_end); the
+   identifier "u"/"U" may be followed by "+" exactly when what follows the "+" is not a unicode range (range_fails:
+   no or more than six hex digits/"?", or a "-" with no or more than six hex digits on either side) - the lexer
+   then returns the identifier "u" alone.
    Not claimed: the converse (that every output of the lexer satisfies tok_spec). *)
-Theorem css_token_sequences_partial : forall toks, seq_ok toks ->
+Theorem css_token_sequences : forall toks, seq_ok toks ->
   css_lex (concat (map snd toks)) = LexDone toks.
 Proof. exact css_token_sequences_proof. Qed.
-Print Assumptions css_token_sequences_partial.
+Print Assumptions css_token_sequences.
